@@ -44,7 +44,7 @@ def make_world(sched, src_policy, dst_keys, accept, verbose=False, src_keys=None
     return bp_net.BpHarness(dict(nodes=nodes), sched, verbose)
 
 
-def source_bundle(har, seqno, payload, ext_blocks=(), flags=0, pri_crc=0, pay_crc=0, report_to=None, dest='dtn://d/app'):
+def source_bundle(har, seqno, payload, ext_blocks=(), flags=0, pri_crc=0, pay_crc=0, report_to=None, dest='dtn://d/app', source=None):
     ''' Let the real source node build, secure and transmit one bundle; returns the transmitted bytes (or None). '''
     from bp.encoding import PrimaryBlock, CanonicalBlock, Timestamp
     from bp.util import BundleContainer
@@ -52,6 +52,9 @@ def source_bundle(har, seqno, payload, ext_blocks=(), flags=0, pri_crc=0, pay_cr
     kwargs = dict(bundle_flags=flags, destination=dest, crc_type=pri_crc, create_ts=Timestamp(dtntime=820000000000, seqno=seqno))
     if report_to:
         kwargs['report_to'] = report_to
+    if source:
+        # sent from a service endpoint of the node: the bundle source differs from the node ID, which is the security source
+        kwargs['source'] = source
     ctr.bundle.primary = PrimaryBlock(**kwargs)
     blocks = []
     for (ix, blk) in enumerate(ext_blocks):
@@ -169,3 +172,15 @@ def _asb_diff(orig_btsd, alt_btsd):
                 if len(msg1) > 4 and msg1[4] != msg2[4]:
                     out.add('cose-recipients')
     return out or {'encoding-only'}
+
+
+def policy_targets_covered(dec, sec_type, target_types):
+    """ Source-side clause: the security blocks the source produced must name exactly the blocks its policy selects (every
+    block whose type is in ``target_types``), each once. Returns None or a description of the difference. """
+    want = sorted(blk['num'] for blk in dec['blocks'] if blk['type'] in target_types)
+    got = []
+    for blk in sec_blocks(dec, sec_type):
+        got.extend(bpsec_cose.parse_asb(blk['btsd'])['targets'])
+    if sorted(got) != want:
+        return 'policy selects blocks %r, the security blocks on the wire name %r' % (want, got)
+    return None
